@@ -34,7 +34,7 @@ func restartCmd(out *cq.Out, seed uint64, tier string) {
 			if phase > 0 {
 				n = 1 + rng.Intn(3)
 			}
-			o, err := runChild(out, childPlan{Dir: dir, Tag: fmt.Sprintf("rs%d-%d", k, phase), Entries: n, Seed: seed + uint64(phase), Raft: true, Port: port, Recover: phase > 0, Close: true}, 0)
+			o, err := runChild(out, childPlan{Dir: dir, Tag: fmt.Sprintf("rs%d-%d", k, phase), Entries: n, Seed: seed + uint64(phase), Raft: true, Port: port, Recover: phase > 0, Close: true, Snap: phase == 1 || (phase == 0 && k == 4)}, 0)
 			if strings.Contains(o, "STARTERR") || strings.Contains(o, "NOLEADER") {
 				out.Count("restart_skipped_infrastructure", 1)
 				ok = false
@@ -67,7 +67,7 @@ func restartCmd(out *cq.Out, seed uint64, tier string) {
 		os.RemoveAll(dir)
 	}
 	largeRestart(out, rng, seed, tier)
-	out.Sample(map[string]interface{}{"stop_points": points, "kind": "child process: single-node raft cluster, workload, Close(true), exit; three incarnations per point"})
+	out.Sample(map[string]interface{}{"stop_points": points, "kind": "child process: single-node raft cluster, workload, (in some incarnations a raft snapshot right before the stop), Close(true), exit; three incarnations per point"})
 }
 
 // largeRestart: a log of more than 1000 events (the hyper cache table then spans several reader pages), a clean
